@@ -1194,6 +1194,15 @@ where
 
     fn deep_clone_value(&self, owner: &Thread, value: &Value) -> Result<RootedValue<&Thread>>;
 
+    /// Like `deep_clone_value` but for a value that is going to be stored inside a mutable cell
+    /// owned by `self` (a reference, a lazy value): the clone is made in the heap the cell lives in
+    fn deep_clone_value_for_cell(
+        &self,
+        cell_in_global_heap: bool,
+        owner: &Thread,
+        value: &Value,
+    ) -> Result<RootedValue<&Thread>>;
+
     fn can_share_values_with(&self, gc: &mut Gc, other: &Thread) -> bool;
 }
 
@@ -1336,6 +1345,26 @@ impl ThreadInternal for Thread {
         let value = cloner.deep_clone(value)?;
         // SAFETY `value` is just cloned and therefore tied to `self`
         unsafe { Ok(self.root_value_with_self(value.get_value())) }
+    }
+
+    fn deep_clone_value_for_cell(
+        &self,
+        cell_in_global_heap: bool,
+        owner: &Thread,
+        value: &Value,
+    ) -> Result<RootedValue<&Thread>> {
+        if cell_in_global_heap {
+            // The cell is part of a loaded module and lives in the heap of the global state. That
+            // heap is older than the heap of any thread so it must not point into one: nothing
+            // would keep the value alive when the thread's heap is collected
+            let mut gc = self.global_state.gc.lock().unwrap();
+            let mut cloner = crate::value::Cloner::new(self, &mut gc);
+            let value = cloner.deep_clone(value)?;
+            // SAFETY `value` was just cloned into a heap which outlives `self`
+            unsafe { Ok(self.root_value_with_self(value.get_value())) }
+        } else {
+            self.deep_clone_value(owner, value)
+        }
     }
 
     fn can_share_values_with(&self, gc: &mut Gc, other: &Thread) -> bool {
